@@ -12,7 +12,7 @@ LEAN_MODULES = ["XmlDiffModel.Props.C09", "XmlDiffModel.Props.C09E", "XmlDiffMod
 SOURCES = ['formatting.XMLFormatter', 'formatting.PlaceholderMaker', 'main.diff_trees']
 RULE = 'XML-formatter stream: (i) an exhaustive text-pair stream - one text or tail update a -> b for every pair of non-empty strings over {a, b} up to length 4 (quick) / 6 (thorough), with and without use_replace; 30 % of the random pairs below also get text shapes ordinary word edits do not produce (old text starts with what the new one ends with, code points above the private-use area, short two-letter strings); (ii) random document pairs (differ-cluster generator, mixed-content trees, and HTML-like documents with <p> text tags, inline formatting and paragraph edits) x formatter configurations (normalize in the four flag values, pretty_print, use_replace, text_tags / formatting_tags) x diff options. Oracle: diff_trees with XMLFormatter completes, the result parses, contains no U+E000-U+F8FF character in text, tails or attribute values, and uses the diff namespace only for the documented elements and attributes. U9: tree handed to render() vs. XmlFormat.formatTree. Non-trivial = output contains diff markup; distinct by (L, R, formatter configuration).'
 ASSUMPTIONS = [
-    "U9: the character-level text diff of every text update (diff_main + diff_cleanupSemantic) is an input of the formatter model, recorded from the real engine; U10: it is computed by the engine model inside the formatter model, only the split points of diff_bisect are recorded (the theorems hold for every bisect behaviour); the engine itself is the subject of C16",
+    "U9: the character-level text diff of every text update (diff_main + diff_cleanupSemantic) is an input of the formatter model, recorded from the real engine; U9e: it is computed by the engine model inside the formatter model, only the split points of diff_bisect are recorded (the theorems hold for every bisect behaviour); the engine itself is the subject of C16",
     "documents without private-use characters; namespace-free documents in the model",
 ]
 
